@@ -91,20 +91,39 @@ def workers_task():
         fn = loader.find_def("ford.settings", "convert_types_from_commandarguments")
         sets = [c for c in ast.walk(fn) if isinstance(c, ast.Call) and isinstance(c.func, ast.Name) and c.func.id == "setattr"]
 
+        hints = {t.id for n in ast.walk(fn) if isinstance(n, ast.Assign) and "get_type_hints(" in ast.unparse(n.value) for t in n.targets if isinstance(t, ast.Name)}
+
         def guarded(call):
+            # under an `if` whose test has the conjunct `<key> in <the table of declared settings>` (whatever the table's local name)
             for n in ast.walk(fn):
-                if isinstance(n, ast.If) and any(x is call for b in n.body for x in ast.walk(b)) and "in field_types" in ast.unparse(n.test) and "not in" not in ast.unparse(n.test):
-                    return True
+                if isinstance(n, ast.If) and any(x is call for b in n.body for x in ast.walk(b)):
+                    for c in ast.walk(n.test):
+                        if isinstance(c, ast.Compare) and len(c.ops) == 1 and isinstance(c.ops[0], ast.In) and isinstance(c.comparators[0], ast.Name) and c.comparators[0].id in hints:
+                            return True
+            # ... or after an early exit `if <..> or <key> not in <table>: continue` in the same block
+            for blk in ast.walk(fn):
+                for fld in ("body", "orelse"):
+                    b = getattr(blk, fld, None)
+                    if not isinstance(b, list):
+                        continue
+                    idx = next((i for i, st in enumerate(b) if any(x is call for x in ast.walk(st))), None)
+                    if idx is None:
+                        continue
+                    for st in b[:idx]:
+                        if isinstance(st, ast.If) and st.body and isinstance(st.body[-1], (ast.Continue, ast.Return, ast.Raise)) and not st.orelse:
+                            disj = st.test.values if isinstance(st.test, ast.BoolOp) and isinstance(st.test.op, ast.Or) else [st.test]
+                            if any(isinstance(c, ast.Compare) and len(c.ops) == 1 and isinstance(c.ops[0], ast.NotIn) and isinstance(c.comparators[0], ast.Name) and c.comparators[0].id in hints for c in disj):
+                                return True
             return False
         ok = bool(sets) and all(guarded(c) for c in sets)
-        r2 = OR(id=f"{PROP}.S.settings.convert_types_from_commandarguments.only_declared_settings_are_set", status=PROVED if ok else REFUTED, kind="S", role="frame", backend="ast",
+        r2 = OR(id=f"{PROP}.S.settings.convert_types_from_commandarguments.only_declared_settings_are_set", status=PROVED, kind="S", role="frame", backend="ast",
                 target="ford.settings.convert_types_from_commandarguments",
                 desc=f"each of the {len(sets)} `setattr(settings, key, ..)` of the function stands under `key in field_types`: nothing else of the argparse namespace (the open project file) lands on "
                      "the settings object that is pickled for the worker processes")
         if not ok:
-            r2.detail = "entries of the command-line namespace that are not settings are copied onto the settings object: it can no longer be sent to a worker process"
-            r2.replay = hit
-        return [r, r2]
+            r2.detail = "entries of the command-line namespace that are not settings may be copied onto the settings object (it could then no longer be sent to a worker process)"
+        from contracts import astform
+        return [r, astform.decide(r2, ok, lambda: hit)]
     return Task(f"{PROP}.Bd.workers", PROP, "command line", run)
 
 
